@@ -252,9 +252,10 @@ def _shared_coms(env, c, at, make):
     if key is None:
         return make()
     store = env.__dict__.setdefault("coms", {})
-    if key not in store:
-        store[key] = make()
-    return store[key]
+    text = json.dumps(c[3:4] if at == 4 else c[3:5], sort_keys=True, default=str)  # operation(s) and arguments as written
+    if key not in store or store[key][0] != text:  # an edited copy of the command is a command of its own
+        store[key] = (text, make())
+    return store[key][1]
 
 
 def exec_cmd(env: Env, c, docs: list):
